@@ -404,15 +404,24 @@ class WithOptions(Evaluatable[B]):
         """Validate the wrapped Evaluatable object with the provided options."""
         self.evaluatable.validate(self._options(options))
 
+    def _supplies(self, key: str, options: Options) -> bool:
+        """Whether the value under the key is determined by the pre-set options alone."""
+        if not dotted_key_exists(key, self.options):
+            return False
+        if not dotted_key_exists(key, options):
+            return True
+        # The key is present on both sides. A section is merged key by key, so
+        # the caller's section still contributes whatever the pre-set one lacks.
+        return self.force and not isinstance(
+            get_dotted_key(key, self.options), Mapping
+        )
+
     def keys(self, options: Options) -> Set[str]:
         """Return the keys required by the wrapped Evaluatable object."""
         return {
             key
             for key in self.evaluatable.keys(self._options(options))
-            if not (
-                dotted_key_exists(key, self.options)
-                and (self.force or not dotted_key_exists(key, options))
-            )
+            if not self._supplies(key, options)
         }
 
     def explain(self, options: Optional[Options] = None) -> Set[str]:
@@ -421,10 +430,7 @@ class WithOptions(Evaluatable[B]):
         return {
             key
             for key in self.evaluatable.explain(self._options(options))
-            if not (
-                dotted_key_exists(key, self.options)
-                and (self.force or not dotted_key_exists(key, options))
-            )
+            if not self._supplies(key, options)
         }
 
     def __repr__(self) -> str:
